@@ -47,4 +47,56 @@ CHECKS['C14'] = dict(
     assumptions=['allocation requests above 64 MiB are refused by the harness allocator (environment model)'],
 )
 
+CHECKS['C15'] = dict(
+    src='checks/c15_huffman.cpp',
+    runs=[dict(cfg='asan')],
+    technique='explicit-state BFS over all update histories (depth-bounded) on small trees + exhaustive capacity-tail enumeration, lock-step with an independent pointer-based reference tree',
+    level_text='For 2..6 symbols (thorough: 2..8) every update history up to a depth bound per tree size (quick 12,12,12,11,9 for 2..6 symbols; thorough 40,24,18,14,12,10,9 for 2..8) is explored with full-state deduplication, together with every out-of-range update/accessor/encoder call in every state. In every state the tree walked through the public accessors must be a full binary prefix code over exactly its symbols, equal in shape to ref_huff run on the same history, and the encoder bit string of every symbol (LSB first) must drive the decoder walk from the root to that symbol in exactly bitCount steps; refused calls must leave the tree unchanged. On 314 symbols eight deterministic adversarial schedules (single symbol, round robin, sawtooth, reverse, ping-pong, skewed, stride, last) are checked after every update up to 20000 (thorough: all 65221) updates, and from 3 updates short of capacity all continuations of depth 5 over 5-6 representative symbols are enumerated: the first 3 succeed, every later one is refused without change (also for 2 and 3 symbols).',
+    level_note='Trusts ref_huff (150 lines, self-checked list invariants) and g++/ASan/UBSan. Deciding clauses use only public accessors; private arrays are used for state keys and diagnostics. Pseudo-random long histories are sampling and are not claimed.',
+    rule='state = (three private arrays, reference tree with weights); transition = one UpdateCodeCount or one invalid call, followed by the full oracle',
+    bounds={'quick': 'n=2..6 depth 12/12/12/11/9; 314 symbols: 8 schedules x 20000 updates (encoder checked every 16th); capacity tail for n in {314 (3 schedules), 2, 3}',
+            'thorough': 'n=2..8 depth 40/24/18/14/12/10/9; 314 symbols: 8 schedules x 65221 updates, encoder after every update'},
+    must_hit={'any': ['small/updates', 'small/invalid-operations', 'long/histories', 'capacity/last-updates-within-capacity', 'capacity/updates-beyond-capacity']},
+    assumptions=['capacity = 65535 - symbols updates (the 16-bit root count n + updates must stay representable)'],
+)
+
+CHECKS['C04'] = dict(
+    src='checks/c04_lzh.cpp',
+    runs=[dict(cfg='asan', env={'VERIF_PART': 'main'}), dict(cfg='plain', env={'VERIF_PART': 'len3'}, tiers=('thorough',))],
+    technique='small-scope exhaustive input/token enumeration + explicit-state BFS (full-state hash) over all drain schedules of the real decoder, against an independent LZHUF reference codec',
+    level_text='Every byte string of length 0..2 (thorough: also all 16.7 M of length 3) and every token sequence of depth <= 3 (thorough 4) over 4 literals and 28 matches (lengths 3,4,59,60 x distances 1,2,63,64,65,4095,4096), plus the full grid of every match length 3..60 x every distance 1..4096, is decoded by the real HuffLZ and compared byte for byte with ref_lzh (the token payload must be a prefix and fewer than eight padding codes may follow). For six fixed streams the graph of ALL drain schedules over GetData(k) / GetInternalBuffer is explored to a fixpoint with full decoder-state hashing: every edge must deliver exactly the next reference bytes and report 0 only at the end. Streams beyond the 65221-code capacity must end in an error with only a reference prefix delivered, for three stream kinds x three drain modes, and all 121 continuations of depth <= 4 across the capacity boundary are enumerated. LZH members of a reference-encoded volume must extract to the reference bytes.',
+    level_note='Trusts ref_lzh/ref_huff (about 300 lines, cross-checked by encode->decode->expand self-consistency on every token sequence), g++/ASan/UBSan. Inputs outside the enumerated sets (long random strings) are represented only by the six drain streams. The empty input is checked for safety, termination and drain independence only.',
+    rule='case = one enumeration chunk or one drain-schedule BFS; states = inputs/token sequences/decoder states; transitions = decodes or drain calls compared with the reference',
+    bounds={'quick': 'inputs len 0..2; token depth 3; match grid 58x4096; drain BFS: 6 streams with the 4-op alphabet {GetData(1),GetData(62),GetData(4096),GetInternalBuffer} (stream 0: 15 ops); capacity 3x3 + 121 tails',
+            'thorough': 'adds all 3-byte inputs (plain -O2 build), token depth 4, 15-op drain alphabet {0,1,2,61,62,63,100,4033,4034,4035,4095,4096,4097,5000,IB} on all six streams'},
+    must_hit={'any': ['short/with-match', 'short/literals-only', 'tokens/with-padding-codes', 'tokens/exact-end', 'grid/lengths', 'drain/data-returns', 'drain/zero-returns',
+                      'drain/internal-buffer-calls', 'capacity/over-long-streams', 'capacity/tail-over', 'capacity/tail-within', 'volume/members-extracted', 'volume/over-capacity-member']},
+    assumptions=['capacity: 65221 codes (16-bit counters, 314 symbols)'],
+)
+
+_VOL_NOTE = 'Trusts ref_vol (strict decoder + encoder, cross-checked against each other on every emitted archive), g++/ASan/UBSan, tmpfs. Names are drawn from an 11-name alphabet (both cases, digits, _ - ., prefixes of each other, every residue of the name-table length mod 4), sizes from {0,1,2,3,4,5,7,8} and six sizes around the 128 KiB copy chunk; sets of 5+ files are represented only by one 40-file set.'
+CHECKS['C01'] = dict(
+    src='checks/c01_c02_vol.cpp', defs=['-DVOL_CHECK=1'],
+    runs=[dict(cfg='asan')],
+    technique='small-scope exhaustive enumeration of file sets (built by add-file transitions) x every list order x path spellings, executed on the real packer/reader',
+    level_text='Every file set with k<=2 files over 11 names x 8 sizes (full product), k=3 over all 165 name triples with <=2 sizes off default, k=4 over an 8-name core with <=1 size off default (thorough: k<=3 full product, k=4 with <=2 sizes off default), plus sets around the 128 KiB copy chunk and a 40-file set, is created on tmpfs in three directories and packed with VolFile::CreateArchive in every list order (k<=3: all k!) and four path spellings. The reopened archive must list exactly the inputs in ascending case-insensitive order with exact sizes and the uncompressed kind, stream and extract (all three extraction paths) the exact bytes, and find every member under upper, lower and swapped case. Sets with names equal ignoring case, and outputs that name an input up to case and a leading ./, must be refused with every pre-existing file byte-identical afterwards (directory tree re-hashed).',
+    level_note=_VOL_NOTE + ' Listing order is accepted if ascending under tolower- or toupper-folding (weaker reading).',
+    rule='state = one file set (names, sizes, directories, spellings); transitions = CreateArchive calls and member interrogations',
+    bounds={'quick': 'k<=2 full; k=3: 165 name triples x 169 size vectors; k=4: 70 core quadruples x 29; big sizes; 40-file set; 14 refusal scenarios',
+            'thorough': 'k<=3 full product (84480 triples), k=4 deviation<=2 (106590), big-size pairs and mixes'},
+    must_hit={'any': ['interrogations', 'orders/identical-archives', 'refusal/duplicate-names-ignoring-case', 'refusal/output-is-an-input', 'refusal/output-is-an-input-up-to-case', 'refusal/output-is-an-input-in-subdirectory']},
+    assumptions=['case-insensitive = ASCII folding'],
+)
+CHECKS['C02'] = dict(
+    src='checks/c01_c02_vol.cpp', defs=['-DVOL_CHECK=2'],
+    runs=[dict(cfg='asan')],
+    technique='small-scope exhaustive enumeration: every archive written for the C01 file sets is decoded by a strict independent VOL decoder; reference-encoded conforming archives (deviation-bounded layout product) are opened by the real reader',
+    level_text='(a) every archive the library writes for the C01 state space (all list orders) is parsed by the strict ref_vol decoder: tags, padding flags, lengths tiling the header exactly, name table = NUL-terminated names in index order at the recorded offsets with zero padding, every entry pointing at a 4-aligned contiguous block whose VBLK tag and length match, zero padded, last block ending at EOF, and a reference case-insensitive binary search finding every member; payloads must equal the inputs. (b) the ref_vol encoder emits conforming archives over member count 0..3, 10 names, 5 payload sizes, 0..2 unused trailing slots (zero or garbage filled), extra name-table padding, and per-member kind stored/LZH/RLE/LZ, with at most 2 (thorough 3) dimensions off default: VolFile must report the same count, names, sizes, kinds and stored payloads, extract stored and LZH members to the right bytes and refuse RLE/LZ.',
+    level_note=_VOL_NOTE,
+    rule='state = one written or reference-encoded archive; transitions = strict decodes / reader queries',
+    bounds={'quick': 'C01 quick file sets; conforming archives: deviation<=2 over 7 layout dimensions', 'thorough': 'C01 thorough file sets; deviation<=3'},
+    must_hit={'any': ['written/strict-decodes', 'conforming/stored-members', 'conforming/lzh-members', 'conforming/unsupported-kind-members', 'conforming/with-unused-slots', 'conforming/with-extra-name-padding']},
+    assumptions=['index size field of an LZH member = decoded length; VBLK length = stored length'],
+)
+
 NOT_APPLICABLE = {}
